@@ -7,9 +7,9 @@ func init() {
 		explain: "(1) rankings: the real HTMLReport Begin/AssetBegin/Write/AssetEnd/End run with arbitrary (symbolic) final outcomes through the real slices.SortFunc and comparator; the solver decides whether the entry recorded as best can be below another result of its asset and whether the overall list can be out of order; (2) protocol and completeness: Backtest.Run over an in-memory repository with symbolic dates, a symbolic 'now', stub strategies replaying symbolic action words and a recording report, one worker: notification order, one Write per (asset, strategy), written actions/outcomes equal to a direct ComputeWithOutcome on the look-back window; (3) two workers with both bundled reports: results equal the one-worker results on the explored job assignment and the certificate over memory cells reports data races",
 		bounds: func(t string) string {
 			if t == "thorough" {
-				return "rankings: <= 3 assets x <= 4 results; protocol: <= 3 assets, <= 3 snapshots, <= 2 strategies; workers 1..2 (3 in one configuration); worker / asset shapes (1,3) (2,4) (3,2) (1,4) (5,4) (4,3) (3,5) with one strategy and one snapshot"
+				return "rankings: <= 3 assets x <= 4 results; protocol: <= 3 assets, <= 3 snapshots, <= 2 strategies; workers 1..2 (3 in one configuration); worker / asset shapes (1,3) (2,4) (3,2) (1,4) (5,4) (4,3) (3,5) with one strategy and one snapshot; assets without snapshots"
 			}
-			return "rankings: <= 3 assets x <= 3 results; protocol: <= 2 assets, <= 3 snapshots, <= 2 strategies; workers 1..2; asset / worker shapes (1 asset, 3 workers), (2,4), (3,2) with one strategy and one snapshot"
+			return "rankings: <= 3 assets x <= 3 results; protocol: <= 2 assets, <= 3 snapshots, <= 2 strategies; workers 1..2; asset / worker shapes (1 asset, 3 workers), (2,4), (3,2) with one strategy and one snapshot; assets without snapshots"
 		},
 		outside:     "HTML rendering and file output (text/template, os: stubbed symbolically, real in the native replay), more than two workers beyond one configuration, job assignments other than those produced by the executor's three scheduling policies for Workers >= 2 (the certificate is not issued there), strategy reports written per strategy (WriteStrategyReports=false), cmd/indicator-backtest",
 		assumptions: append([]string{"day-number model of time.Time with a symbolic 'now'", realModeNote}, commonAssumptions...),
@@ -70,6 +70,16 @@ func init() {
 				c := cs("H_C13_Workers", x.na, 1, 1, x.w, 0)
 				c.TrackMem = true
 				out = append(out, c)
+			}
+			// assets without a single snapshot in the look-back window (stale / empty)
+			for na := 1; na <= 2; na++ {
+				for w := 1; w <= 2; w++ {
+					for html := 0; html <= 1; html++ {
+						c := cs("H_C13_Workers", na, 0, 1, w, html)
+						c.TrackMem = true
+						out = append(out, c)
+					}
+				}
 			}
 			if tier == "thorough" {
 				c := cs("H_C13_Workers", 3, 2, 2, 3, 0)
